@@ -16,7 +16,7 @@ except OSError:
 
 
 def P(pid, streams, oracle, rule, assumptions, examples=0, extra_modules=()):
-    return dict(theorems=REG.get(pid, []), examples=examples, streams=streams, oracle=oracle, rule=rule,
+    return dict(theorems=REG.get(pid, []) + [t for m in extra_modules for t in REG.get(m, [])], examples=examples, streams=streams, oracle=oracle, rule=rule,
                 trusted_base=BASE, assumptions=assumptions, extra_modules=list(extra_modules))
 
 
@@ -29,9 +29,9 @@ PROPS = {
     'C02': P('C02', [('nest', 4500, 36000)], ('C02', 3000, 20000),
              "oracle: 16 nesting families x sizes up to the budget x max_nesting in {0,1,3,10,100}; recursion gauge (hook) and tree depth compared with 4*max_nesting+16; non-trivial = size >= 150",
              ["actual stack exhaustion is a runtime fact; the model bounds frames and depth, the oracle observes the gauge on a 3 GiB-stack thread"]),
-    'C03': P('C03', [('render', 15000, 120000)], ('C03', 20000, 160000),
+    'C03': P('C03', [('render', 15000, 120000), ('noderender', 4000, 32000)], ('C03', 20000, 160000),
              "render stream: escape_html inputs and random event scripts (hostile payloads, empty strings, NUL, LF-terminated texts before cr) replayed into the REAL HTMLRenderer in both modes; oracle: recogniser of the safe output language on rendered hostile/generated documents under html-free configurations; non-trivial = payload with & < or quote / script with cr and >= 3 events",
-             ["tag names and attribute names come from &'static str literals of the shipped node kinds (EventOK hypothesis); the per-kind render model is validated by the recorded-event oracle of C19"]),
+             ["attribute names pushed into node.attrs by plugins are &'static str; the theorems assume they are `data-sourcepos` (what the shipped sourcepos plugin pushes) - shown necessary by a witness"], extra_modules=('NodeRender',)),
     'C04': P('C04', [('link', 15000, 120000)], ('C04', 30000, 240000),
              "oracle: scheme spellings (case, named/decimal/hex references, escapes, embedded controls, percent escapes) x 8 syntactic positions; every Link/Image/Autolink url and every rendered href/src is fed to a WHATWG-style scheme extractor",
              ["browser behaviour is modelled by WHATWG URL pre-processing (strip C0/space at the ends, drop TAB/LF/CR) + ASCII-case-insensitive scheme"]),
@@ -78,9 +78,9 @@ PROPS = {
     'C18': P('C18', [('alt', 12500, 100000)], ('C18', 20000, 160000),
              "oracle: ![D](x) for generated inline descriptions; alt attribute vs plain-text display of the image node's own children",
              []),
-    'C19': P('C19', [('render', 15000, 120000)], ('C19', 15000, 120000),
-             "render stream as C03; oracle: independent event-recording Renderer over real trees of all generators x configurations: render twice, tree unchanged, built-in output = reference serialisation of recorded events (HTML and XHTML), length difference = 2 x void elements",
-             []),
+    'C19': P('C19', [('render', 15000, 120000), ('noderender', 4000, 32000)], ('C19', 15000, 120000),
+             "render stream as C03; noderender stream: events recorded from REAL trees by an independent Renderer vs the per-kind render model on the dumped tree, and real render()/xrender() vs serialize(render model); oracle: independent event-recording Renderer over real trees of all generators x configurations: render twice, tree unchanged, built-in output = reference serialisation of recorded events (HTML and XHTML), length difference = 2 x void elements",
+             [], extra_modules=('NodeRender',)),
     'C20': P('C20', [('eset', 15000, 120000), ('tree', 10000, 80000)], ('C20', 15000, 120000),
              "eset stream: op sequences (1-60 ops) over eight Rust types incl. zero-sized and same-layout types on the REAL ErasedSet vs model; tree stream: walk / walk_mut with a mutating callback on random trees; oracle: HashMap<TypeId,_> reference and manual stack pre-order",
              []),
